@@ -256,6 +256,19 @@ def design_mc(ctx, prop, cfgs_quick, cfgs_thorough=()):
     for m, p in sorted(MUTANTS.items()):
         if p != prop or (m in SLOW_MUTANTS and ctx.tier != "thorough"):
             continue
+        if m in SLOW_MUTANTS:
+            # liveness mutant: TLC says "Temporal property X was violated", which vf.tlc_mc's
+            # pattern does not cover; judged here
+            name = "MC_Scheduler_mutant_%s" % m
+            rc, out, wall = ctx._tlc(SD, "Scheduler.tla", name + ".cfg", name, 2, 1800, xmx="6g")
+            st = ctx._stats(out)
+            if rc == -9 or not re.search(r"Temporal propert\w+ .*violated", out):
+                raise vf.ToolError("liveness mutant %s was NOT rejected by TLC" % name)
+            vf.log("TLC %s: %d distinct, %.1fs VIOLATED (temporal)" % (name, st["distinct"], wall))
+            ctx.cov["mc_runs"].append({"name": name, "states": st["distinct"],
+                                       "transitions": st["generated"], "depth": st["depth"],
+                                       "wall_s": round(wall, 1), "mutant_rejected": True})
+            continue
         ctx.tlc_mc("Scheduler.tla", "MC_Scheduler_mutant_%s.cfg" % m, spec_dir=SD,
                    expect_violation=True, workers=2, timeout=900)
 
